@@ -1,4 +1,6 @@
 import Btdht.Proofs.Tid
+import Btdht.Proofs.Attribution
+import Btdht.Model.Dht
 /-!
 # C19 — Transaction ids: 8 bytes, never reused while live or shared between activities
 
@@ -12,9 +14,14 @@ block being an arbitrary permutation oracle. All theorems hold for *every* famil
 The numbers 2048, 2^24, 2^40 in the statements are the property's; the definitions use the
 constants extracted from the source, so a changed constant breaks these proofs.
 
-Component-level part of C19 (generators and id layout). The node-level clauses (every emitted
-query carries an id drawn from these generators; the bootstrap first-round id is used towards
-pairwise distinct addresses) are decided by the node engines listed for C19 in DESIGN.md.
+Component-level part of C19 (generators and id layout), plus the attribution clause at the level of
+the handler model (`C19_attribution`, `C19_attribution_unique`): in every state of every run the
+stored searches have pairwise distinct action ids, none of them the refresh's (0) or the
+bootstrap's (1), and the outstanding queries of a search have pairwise distinct transaction ids —
+so a response is routed to at most one search and matches at most one of its outstanding queries.
+(The exchanges of the bootstrap worker are keyed by (address, id) and pairwise distinct:
+`C15_exchanges_distinct`, `C15_first_round_distinct`.) That every query on the wire carries an id
+drawn this way is decided by the `[C19]` oracle of the node engine on every datagram real nodes send.
 -/
 namespace Btdht
 
@@ -121,6 +128,44 @@ theorem C19_aid_range (oracle : Nat → List Nat) (ho : ∀ i, validPerm 2048 (o
     (by rw [aidBlockLen_eq, maxActionId_eq]) i (by rw [maxActionId_eq]; exact hi)
   rw [maxActionId_eq] at this
   exact this
+
+/-- **C19 (attribution)**: in every state the handler reaches — any interleaving of datagrams,
+search starts and timer firings — the stored searches have pairwise distinct action ids, all of them
+at least 2 (the refresh uses 0, the bootstrap worker 1), and the outstanding queries of each search
+have pairwise distinct transaction ids. -/
+theorem C19_attribution (selfId : Bytes) (v6 ro : Bool) (port : Option Nat) (fa : List Addr) (t0 : Nat)
+    (ops : List (HOp × Nat)) :
+    AttrInv ((HState.new selfId v6 ro port fa t0).runOps ops) :=
+  runOps_attr ops _ (attr_new selfId v6 ro port fa t0)
+
+theorem nodup_map_inj {α β} (f : α → β) : ∀ (l : List α), (l.map f).Nodup → ∀ a ∈ l, ∀ b ∈ l, f a = f b → a = b
+  | [], _, a, ha, _, _, _ => by simp at ha
+  | x :: xs, hn, a, ha, b, hb, hab => by
+    simp only [List.map_cons, List.nodup_cons, List.mem_map, not_exists, not_and] at hn
+    rcases List.mem_cons.mp ha with rfl | ha'
+    · rcases List.mem_cons.mp hb with rfl | hb'
+      · rfl
+      · exact absurd hab.symm (hn.1 b hb')
+    · rcases List.mem_cons.mp hb with rfl | hb'
+      · exact absurd hab (hn.1 a ha')
+      · exact nodup_map_inj f xs hn.2 a ha' b hb' hab
+
+/-- ... hence **a response can be attributed to at most one outstanding query**: two stored
+searches with the same action id are the same search, and two outstanding queries of a search with
+the same transaction id are the same query; the refresh's and the bootstrap's prefixes belong to no
+search. -/
+theorem C19_attribution_unique (selfId : Bytes) (v6 ro : Bool) (port : Option Nat) (fa : List Addr) (t0 : Nat)
+    (ops : List (HOp × Nat)) :
+    let s := (HState.new selfId v6 ro port fa t0).runOps ops
+    (∀ l1 ∈ s.lookups, ∀ l2 ∈ s.lookups, l1.aid = l2.aid → l1 = l2) ∧
+    (∀ l ∈ s.lookups, ∀ e1 ∈ l.active, ∀ e2 ∈ l.active, e1.1 = e2.1 → e1 = e2) ∧
+    (∀ l ∈ s.lookups, l.aid ≠ refreshAid ∧ l.aid ≠ bootstrapAid) := by
+  intro s
+  have h := C19_attribution selfId v6 ro port fa t0 ops
+  refine ⟨nodup_map_inj _ _ h.aidsNodup, fun l hl => nodup_map_inj _ _ (h.tids l hl), fun l hl => ?_⟩
+  have := (h.aidRange l hl).1
+  simp only [refreshAid, bootstrapAid]
+  omega
 
 /-- Non-vacuity: the identity shuffle is an admissible oracle, and with it the generator counts up. -/
 example : validPerm 4 [2, 0, 3, 1] = true := by decide
